@@ -10,6 +10,7 @@ CONSTANTS
   MaxFail = 1
   MaxQ0 = 0
   Kinds = {"P2"}
+  Parts = {TRUE, FALSE}
   MaxCancel = 1
   MaxFault = 1
   Dev = {}
